@@ -21,6 +21,7 @@ RULE = ('one case = one Configurator (2-10 add_view calls: context in class tree
         'ContextFound subscriber that marks the context with an interface views are registered for, add_view given for_= or positional '
         'arguments, custom predicates that raise when evaluated although the request_method predicate before them failed (any exception '
         'leaving the router is an observation that fits no specification), header regexes containing colons with matching header values, '
+        '35 % of the cases with extra Not Found views carrying containment= / match_param= (the one that answers must qualify and have the most predicates: harness-side judge), '
         '40 % of the cases with a second '
         'application alive in the process that is asked first in the last phase), each sent at a chosen moment of the commit history (warm lookup cache) and compared with the model on the registrations committed so far; non-trivial = the case has >= 3 registrations, at least one request on which '
         'a view body ran after the lookup had at least two name-matching registrations in range, and at least one request '
@@ -330,6 +331,15 @@ def gen_case(rng):
         commits = sorted(need | set(rng.sample(range(nv), rng.choice([0, 1, 2]))))
     case = {'routes': routes, 'third': third, 'views': views, 'commits': commits, 'requests': [],
             'rootnone': rng.random() < 0.3, 'twoapps': rng.random() < 0.4, 'falsy': rng.random() < 0.3}
+    if rng.random() < 0.35:       # extra Not Found views with predicates, competing with the predicate-less one
+        combos = []
+        for _ in range(rng.choice([1, 2, 2])):
+            nfd = {'cont': rng.choice([None, 'A', 'B', 'U', 'Root', 'A2']), 'cont_not': rng.random() < 0.25,
+                   'mp': rng.choice([None, '1', '2'])}
+            if (nfd['cont'] is not None or nfd['mp'] is not None) and nfd not in combos:
+                combos.append(nfd)
+        if combos:
+            case['nfviews'] = combos
     points = _points(case)
     for _ in range(rng.choice([10, 12, 14])):
         tidx, r = gen_request(rng, case)
@@ -357,7 +367,7 @@ def generate(rng, tier, n):
 
 def valid(case):
     try:
-        if not isinstance(case, dict) or set(case) - {'rootnone', 'twoapps', 'falsy'} != {'routes', 'third', 'views', 'requests', 'commits'}:
+        if not isinstance(case, dict) or set(case) - {'rootnone', 'twoapps', 'falsy', 'nfviews'} != {'routes', 'third', 'views', 'requests', 'commits'}:
             return False
         if not case['views'] or not case['requests']:
             return False
@@ -367,6 +377,12 @@ def valid(case):
             return False
         rn = [r['name'] for r in case['routes']]
         if len(set(rn)) != len(rn) or any(n not in ROUTES for n in rn):
+            return False
+        nfv = case.get('nfviews', [])
+        if not isinstance(nfv, list) or any(
+                not isinstance(nv, dict) or set(nv) != {'cont', 'cont_not', 'mp'} or nv['cont'] not in [None] + CONT
+                or nv['mp'] not in (None, '1', '2') or (nv['cont'] is None and nv['mp'] is None) for nv in nfv) \
+                or any(nfv[i] == nfv[j] for i in range(len(nfv)) for j in range(i)):
             return False
         tags = [v['tag'] for v in case['views']]
         if len(set(tags)) != len(tags):
@@ -457,6 +473,11 @@ def shrinks(case):
         yield dict(case, twoapps=False)
     if case.get('falsy'):
         yield dict(case, falsy=False)
+    if case.get('nfviews'):
+        yield {k: v for k, v in case.items() if k != 'nfviews'}
+        for i in range(len(case['nfviews'])):
+            if len(case['nfviews']) > 1:
+                yield dict(case, nfviews=case['nfviews'][:i] + case['nfviews'][i + 1:])
     n = len(case['views'])
     for i, r in enumerate(case['requests']):
         if _after(r, n) != n:
@@ -701,6 +722,21 @@ class World:
             resp.headers['X-Tag'] = 'nf-pme' if isinstance(request.exception, P['PredicateMismatch']) else 'nf-none'
             return resp
         cfg.add_notfound_view(notfound)
+        if batched:
+            cfg.commit()
+        for k, nv in enumerate(case.get('nfviews', [])):      # Not Found views with predicates (each in its own commit)
+            def nf_k(request, k=k):
+                resp = P['Response']('nf')
+                resp.headers['X-Tag'] = 'nf%d-%s' % (k, 'pme' if isinstance(request.exception, P['PredicateMismatch']) else 'none')
+                return resp
+            nkw = {}
+            if nv['cont'] is not None:
+                nkw['containment'] = P['not_'](P['classes'][nv['cont']]) if nv['cont_not'] else P['classes'][nv['cont']]
+            if nv['mp'] is not None:
+                nkw['match_param'] = 'mp=%s' % nv['mp']
+            cfg.add_notfound_view(nf_k, **nkw)
+            if batched:
+                cfg.commit()
 
         def on_context_found(event):        # a per-request marker (workflow state ...) decided when the context is known
             rq = event.request
@@ -923,6 +959,14 @@ class World:
             if marked is not None:
                 _P['noLongerProvides'](marked, _P['M'])
         tag = resp.headers.get('X-Tag')
+        if tag is not None and tag.startswith('nf') and self.case.get('nfviews'):
+            # which Not Found view answered: it must be one whose documented predicate conditions hold for this request, and
+            # no qualifying Not Found view may have more predicates (they all live in one slot)
+            ran = None if tag.startswith('nf-') else int(tag[2:tag.index('-')])
+            allowed = self._nf_allowed(r)
+            if ran not in allowed:
+                return ['WRONG-NOTFOUND-VIEW-RAN', ran, sorted(allowed, key=repr)]
+            tag = 'nf-' + tag.split('-', 1)[1]
         if tag is not None and tag.startswith('shadow'):
             return ['VIEW-OF-ANOTHER-APPLICATION-RAN', tag]
         log = req.environ['c03.log']
@@ -937,6 +981,29 @@ class World:
                 return [2, log[0]]          # exactly that body ran, and raised HTTPNotFound itself
             return ['BODY-RAN-BUT-404', log]
         return [0, 1 if tag == 'nf-pme' else 0]
+
+    def _nf_allowed(self, r):
+        P = _P
+        ctx = _find_resource(r['path'], self.case.get('rootnone'))
+        lin = []
+        while ctx is not None:                   # the harness's own walk up the lineage
+            lin.append(ctx)
+            ctx = getattr(ctx, '__parent__', None)
+        scored = [(None, 0)]                     # the predicate-less Not Found view always qualifies
+        for k, nv in enumerate(self.case['nfviews']):
+            ok, n = True, 0
+            if nv['cont'] is not None:
+                c = P['classes'][nv['cont']]
+                inside = any((c.providedBy(x) if nv['cont'] in ('I', 'I2') else isinstance(x, c)) for x in lin)
+                ok = ok and (inside != bool(nv['cont_not']))
+                n += 1
+            if nv['mp'] is not None:
+                ok = ok and r['route'] is not None and r['mp'] == nv['mp']
+                n += 1
+            if ok:
+                scored.append((k, n))
+        best = max(n for _, n in scored)
+        return {k for k, n in scored if n == best}
 
     def mades(self):
         digests = []
@@ -1135,6 +1202,8 @@ def kinds(case, obs):
         k.append('cfg:two-applications-interleaved')
     if case.get('falsy'):
         k.append('cfg:falsy-empty-resources')
+    if case.get('nfviews'):
+        k.append('cfg:notfound-views-with-predicates')
     if any(r.get('mark') for r in case['requests']):
         k.append('cfg:context-marked-by-subscriber')
     if any(v['ctx'] == 'M' for v in case['views']):
